@@ -54,7 +54,7 @@ Proof.
   change (is_nil (b0 :: base')) with false in Hc. cbv iota in Hc.
   set (base := b0 :: base') in *.
   cbv zeta in Hc.
-  match type of Hc with context [negb (within ?x ?y)] => destruct (negb (within x y)) eqn:Ew1 end; [discriminate|].
+  match type of Hc with context [negb (within ?x ?y)] => destruct (negb (within x y)) eqn:Ew1 end; [discriminate Hc|].
   destruct (py_realpath kf fs cwd pf (parse base)) as [br|] eqn:Ebr; [|discriminate].
   destruct (py_realpath kf fs cwd pf (py_join (parse base) (parse loc))) as [pr|] eqn:Epr; [|discriminate].
   pose proof (realpath_agrees_resolve_up _ _ _ _ _ _ _ _ _ _ Hcwd Hcgood Hkb Ebr) as ->.
@@ -69,7 +69,7 @@ Proof.
     [|eapply Forall_impl; [|exact Hrb]; apply entry_name_ok
      |eapply Forall_impl; [|exact Hrp]; apply entry_name_ok].
   split; [exact Ew|].
-  destruct kf as [|kf0]; [discriminate|].
+  destruct kf as [|kf0]; [unfold kstr in Hkb; destruct (is_empty_path (parse base)); discriminate|].
   rewrite (stat_abs kf0 fs cwd rp n (get_dir_root_dir _ _ _ _ Hcwd) (Forall_entry_good _ Hrp) Hgp Hnp) in Hc.
   destruct (1 <? nlink_of n)%N eqn:El; [discriminate|].
   apply N.ltb_ge in El. auto.
